@@ -435,3 +435,39 @@ def edge_imbalance(F):
         if a != b and c.get((b, a), 0) != k:
             bad[(min(a, b), max(a, b))] = (c.get((min(a, b), max(a, b)), 0), c.get((max(a, b), min(a, b)), 0))
     return bad
+
+
+def self_pierced(V, F, E=None):
+    """does an edge of the mesh pass through the interior of a face that shares no vertex with it?  Two triangles of
+    an embedded surface never do that; exhaustive over all (edge, face) pairs, float64 with a relative margin."""
+    V = np.asarray(V, dtype=np.float64)
+    F = np.asarray(F, dtype=np.int64).reshape((-1, 3))
+    if E is None:
+        e = np.sort(np.vstack((F[:, [0, 1]], F[:, [1, 2]], F[:, [2, 0]])), axis=1)
+        E = np.unique(e, axis=0)
+    if len(F) == 0 or len(E) == 0:
+        return False
+    a, b, c = V[F[:, 0]], V[F[:, 1]], V[F[:, 2]]
+    n = np.cross(b - a, c - a)
+    nn = (n * n).sum(axis=1)
+    ok = nn > 0
+    step = max(1, 200000 // len(F))
+    for i in range(0, len(E), step):
+        e = E[i : i + step]
+        p, q = V[e[:, 0]], V[e[:, 1]]
+        dp = np.einsum("ijk,jk->ij", p[:, None, :] - a[None, :, :], n)
+        dq = np.einsum("ijk,jk->ij", q[:, None, :] - a[None, :, :], n)
+        shares = (e[:, 0][:, None, None] == F[None, :, :]).any(axis=2) | (e[:, 1][:, None, None] == F[None, :, :]).any(axis=2)
+        cand = (dp * dq < 0) & ~shares & ok[None, :]
+        if not cand.any():
+            continue
+        ii, jj = np.nonzero(cand)
+        t = dp[ii, jj] / (dp[ii, jj] - dq[ii, jj])
+        x = p[ii] + t[:, None] * (q[ii] - p[ii])
+        inside = np.ones(len(ii), dtype=bool)
+        for u, v in ((a, b), (b, c), (c, a)):
+            w = np.einsum("ij,ij->i", np.cross(v[jj] - u[jj], x - u[jj]), n[jj])
+            inside &= w > 1e-9 * nn[jj]
+        if inside.any():
+            return True
+    return False
